@@ -356,16 +356,18 @@ def gen_for(prop, rng, n):
 def run_property(ctx, prop, n_quick, n_thorough, extra=None, assumptions=None, extra_prop_files=()):
     rng = random.Random(ctx.seed * 1000003 + int(prop[1:]))
     info = C.prologue(ctx)
-    for pf in extra_prop_files:
-        # further files of theorems that belong to this property: their obligations are added
-        pok, names, plog = C.coq_check_property_file(pf)
+    if extra_prop_files:
+        # further files of theorems that belong to this property: their obligations are added (one parallel make for all of them)
+        res, plog = C.coq_check_property_files(list(extra_prop_files))
         closed, axioms = C.parse_assumptions(plog)
-        info["prop_ok"] = info["prop_ok"] and pok
-        info["theorems"] = info["theorems"] + names
         info["closed"] += closed
         info["axioms"] = info["axioms"] + axioms
-        if not pok:
-            info["prop_log"] = info.get("prop_log", "") + plog[-2000:]
+        for pf in extra_prop_files:
+            pok, names = res[pf]
+            info["prop_ok"] = info["prop_ok"] and pok
+            info["theorems"] = info["theorems"] + names
+            if not pok:
+                info["prop_log"] = info.get("prop_log", "") + ("Properties/%s.v did not compile: " % pf) + plog[-2500:]
     if info["hbin"] is None:
         raise RuntimeError("harness build failed:\n" + info.get("go_log", ""))
     fam = FamilyRun(ctx, info, prop)
